@@ -8,7 +8,13 @@ from cobald.decorator.coarser import Coarser
 
 from ..core import Task
 from ..symx import INF, And, Implies, Not, Or, is_sym
-from .common import RecPool, same
+from .common import RecPool, numeric_stubs, same
+import cobald.decorator.standardiser as _std_mod
+
+# int() / float() / math.floor / math.ceil as seen from the modules under test act on proxies (stubs, listed in evidence)
+for _m in (_std_mod,):
+    for _mod, _name, _val in numeric_stubs(_m):
+        setattr(_mod, _name, _val)
 
 PROPERTY = "C06"
 MOD = __name__
@@ -35,7 +41,7 @@ MANIFEST = {
             "validated by concrete witness replays of every sampled path on plain python numbers",
     "design_ref": "DESIGN.md §3 C06",
 }
-STUBS = []
+STUBS = ["int / float / math.floor / math.ceil (as seen from the modules under test) accept number proxies"]
 ASSUMPTIONS = [
     "constructor contract: minimum <= maximum, granularity > 0, surplus > 0, backlog > 0 "
     "(rejection of everything else is an obligation of its own)",
